@@ -4,6 +4,7 @@ import (
 	"bytes"
 	"encoding/json"
 	"fmt"
+	"go/token"
 	"math/rand"
 	"reflect"
 	"strings"
@@ -11,6 +12,8 @@ import (
 
 	"github.com/dave/dst"
 	"github.com/dave/dst/decorator"
+	"github.com/dave/dst/decorator/resolver/simple"
+	"github.com/dave/dst/decorator/resolver/goast"
 )
 
 func init() { register("C02", "model_checking", checkC02) }
@@ -66,7 +69,14 @@ func c02Case(t listTemplate, decs []chunk, blank bool, hist []editOp) (sig, what
 	if src == "" {
 		return "", "", false
 	}
-	f, err := decorator.Parse(src)
+	var f *dst.File
+	var err error
+	libNames := simple.New(map[string]string{"example.com/lib": "lib"})
+	if t.Qualified {
+		f, err = decorator.NewDecoratorWithImports(token.NewFileSet(), "example.com/p", goast.WithResolver(libNames)).Parse(src)
+	} else {
+		f, err = decorator.Parse(src)
+	}
 	if err != nil {
 		return "", "", false
 	}
@@ -109,7 +119,20 @@ func c02Case(t listTemplate, decs []chunk, blank bool, hist []editOp) (sig, what
 			insertAt(get(other), op.J-1, x)
 		}
 	}
-	got, msg := printFile(f)
+	var got, msg string
+	if t.Qualified {
+		var qb bytes.Buffer
+		var qerr error
+		msg = guard(func() {
+			qerr = decorator.NewRestorerWithImports("example.com/p", libNames).Fprint(&qb, dst.Clone(f).(*dst.File))
+		})
+		if msg == "" && qerr != nil {
+			msg = "error: " + qerr.Error()
+		}
+		got = qb.String()
+	} else {
+		got, msg = printFile(f)
+	}
 	if msg != "" {
 		return "edit-print-fails", msg, true
 	}
@@ -121,7 +144,14 @@ func c02Case(t listTemplate, decs []chunk, blank bool, hist []editOp) (sig, what
 	// the same tree through a restorer that also restores objects and scopes (Extras)
 	var xbuf bytes.Buffer
 	var xerr error
-	if msg := guard(func() { xr := decorator.NewRestorer(); xr.Extras = true; xerr = xr.Fprint(&xbuf, f) }); msg != "" || xerr != nil {
+	if msg := guard(func() {
+		xr := decorator.NewRestorer()
+		if t.Qualified {
+			xr = decorator.NewRestorerWithImports("example.com/p", libNames)
+		}
+		xr.Extras = true
+		xerr = xr.Fprint(&xbuf, f)
+	}); msg != "" || xerr != nil {
 		return "edit-print-fails", fmt.Sprintf("with Restorer.Extras: %s %v", msg, xerr), true
 	}
 	if xbuf.String() != got {
@@ -182,7 +212,7 @@ func checkC02(c *Ctx) {
 	if !c.Quick() {
 		perLayout = 400
 	}
-	for _, t := range listTemplates {
+	for _, t := range append(append([]listTemplate{}, listTemplates...), qualifiedTemplates...) {
 		if t.NotC02 {
 			continue
 		}
@@ -258,7 +288,7 @@ func init() {
 			Hist     []editOp `json:"hist"`
 		}
 		json.Unmarshal(raw, &r)
-		for _, t := range listTemplates {
+		for _, t := range append(append([]listTemplate{}, listTemplates...), qualifiedTemplates...) {
 			if t.Name == r.Template {
 				_, what, _ := c02Case(t, r.Decs, r.Blank, r.Hist)
 				return what
